@@ -269,6 +269,8 @@ fn main() -> Result<()> {
 
         read_and_cut_bytes_stream(&mut stdin, &mut stdout, &stream_opt)?;
 
+        stdout.flush()?;
+
         return Ok(());
     }
 
